@@ -234,43 +234,3 @@ Proof.
    repeat rewrite <- app_assoc; cbn [app]; reflexivity).
 Qed.
 
-(* ---------------------------------------------------------------- the table *)
-Definition entry_ok (e : list N * (hdr -> parser (leaf * rsvT))) : Prop :=
-  leaf_lossless (snd e) /\
-  (forall h r l rsv r', h_name h = fst e -> snd e h r = Ok ((l, rsv), r') -> leaf_name l = fst e).
-
-Ltac nrun H :=
-  repeat (cbv beta zeta in H;
-          lazymatch type of H with
-          | pbind _ _ _ = Ok _ => apply pbind_ok in H; destruct H as (? & ? & _ & H)
-          | (if ?c then _ else _) _ = Ok _ => destruct c
-          | pfail _ = Ok _ => discriminate H
-          end).
-Ltac name_of H := nrun H; unfold pret in H; injection H; intros; subst; cbn [leaf_name]; congruence.
-
-Lemma leaf_table_ok : Forall entry_ok leaf_table.
-Proof.
-  unfold leaf_table.
-  repeat apply Forall_cons; try apply Forall_nil; split; cbn [fst snd];
-    try first [ exact lossless_ftyp | exact lossless_free | exact lossless_mdat | exact lossless_mfhd
-              | exact lossless_tfhd | exact lossless_tfdt | exact lossless_trun | exact lossless_mvhd
-              | exact lossless_tkhd | exact lossless_sidx | exact lossless_trex | exact lossless_mdhd
-              | exact lossless_hdlr | exact lossless_stts ];
-    intros h r l rsv r' Hn H.
-  - unfold dec_ftyp in H. name_of H.
-  - unfold dec_ftyp in H. name_of H.
-  - unfold dec_free in H. name_of H.
-  - unfold dec_free in H. name_of H.
-  - unfold dec_mdat in H. destruct (rdB (payload_len h) r) as [[x r1]| | |]; injection H; intros; subst; reflexivity.
-  - unfold dec_mfhd in H. name_of H.
-  - unfold dec_tfhd in H. name_of H.
-  - unfold dec_tfdt in H. name_of H.
-  - unfold dec_trun in H. name_of H.
-  - unfold dec_mvhd in H. name_of H.
-  - unfold dec_tkhd in H. name_of H.
-  - unfold dec_sidx in H. name_of H.
-  - unfold dec_trex in H. name_of H.
-  - unfold dec_mdhd in H. name_of H.
-  - unfold dec_hdlr in H. name_of H.
-  - unfold dec_stts in H. name_of H.
-Qed.
